@@ -116,7 +116,7 @@ def _kani_cmd(extra=()):
 def _norm_msg(raw):
     raw = raw.strip()
     if raw.startswith("concat!"):
-        return "".join(json.loads('"%s"' % s) if True else s for s in re.findall(r'"((?:[^"\\]|\\.)*)"', raw))
+        return "".join(json.loads('"%s"' % s) for s in re.findall(r'"((?:[^"\\]|\\.)*)"', raw))
     m = re.fullmatch(r'"((?:[^"\\]|\\.)*)"', raw, flags=re.S)
     if m:
         try:
@@ -165,11 +165,13 @@ def parse_kani(out):
         tm = re.search(r"Verification Time: ([0-9.]+)s", txt)
         if tm:
             r["time_s"] = float(tm.group(1))
-        for fm in re.finditer(r"Failed Checks:(.*?)\n\s*File: \"([^\"]*)\", line (\d+), in (\S+)", txt, flags=re.S):
-            r["failed_checks"].append({"msg": _norm_msg(fm.group(1)), "file": fm.group(2), "line": int(fm.group(3)), "in": fm.group(4)})
-        # failed checks without a location
-        for fm in re.finditer(r"Failed Checks:([^\n]*)\n(?!\s*File:)", txt):
-            r["failed_checks"].append({"msg": _norm_msg(fm.group(1)), "file": None, "line": None, "in": None})
+        for chunk in txt.split("Failed Checks:")[1:]:
+            chunk = re.split(r"\n\s*\n|\nVERIFICATION:-", chunk)[0]
+            fm = re.search(r"^(.*?)\n\s*File: \"([^\"]*)\", line (\d+), in (\S+)", chunk, flags=re.S)
+            if fm:
+                r["failed_checks"].append({"msg": _norm_msg(fm.group(1)), "file": fm.group(2), "line": int(fm.group(3)), "in": fm.group(4)})
+            else:
+                r["failed_checks"].append({"msg": _norm_msg(chunk.strip().splitlines()[0] if chunk.strip() else ""), "file": None, "line": None, "in": None})
         results[qname.split("::")[-1]] = r
     sm = re.search(r"Complete - (\d+) successfully verified harnesses, (\d+) failures, (\d+) total", out)
     summary = tuple(int(x) for x in sm.groups()) if sm else None
@@ -329,11 +331,8 @@ def _verify(res, crate, expected, resolve, pid, input_files):
             c = _kani_cmd(["-Z", "concrete-playback", "--concrete-playback=print", "--exact", "--harness", results[n]["qualified"]])
             _rc, o, _w, to = _run(c, crate, PLAYBACK_TIMEOUT_S)
             return n, (None if to else parse_playback(o))
-        # first one alone (it may have to rebuild), the rest in parallel
-        n0, v0 = pb(need_pb[0])
-        playback[n0] = v0
-        with concurrent.futures.ThreadPoolExecutor(max_workers=JOBS) as ex:
-            for n, v in ex.map(pb, need_pb[1:]):
+        with concurrent.futures.ThreadPoolExecutor(max_workers=JOBS) as ex:  # cargo serialises the (small) rebuild itself
+            for n, v in ex.map(pb, need_pb):
                 playback[n] = v
     for name in sorted(failing):
         r = results[name]
